@@ -98,6 +98,8 @@ TokOp(toks, i, ops) == i <= Len(toks) /\ toks[i][1] = "op" /\ toks[i][2] \in ops
 Bad(why, i) == [ok |-> FALSE, v |-> 0, i |-> i, why |-> why]
 Good(v, i) == [ok |-> TRUE, v |-> v, i |-> i, why |-> ""]
 InModel(v) == v > -1073741824 /\ v < 1073741824
+Abs(v) == IF v < 0 THEN 0 - v ELSE v
+MulInModel(x, y) == x = 0 \/ y = 0 \/ Abs(x) <= 1073741823 \div Abs(y)    \* no 32-bit overflow in TLC
 
 RECURSIVE EvExpr(_, _, _), EvTerm(_, _, _), EvAtom(_, _, _), EvExprTail(_, _, _, _), EvTermTail(_, _, _, _)
 EvAtom(cs, toks, i) ==
@@ -119,10 +121,10 @@ EvTermTail(cs, toks, acc, i) ==
     ELSE With(EvAtom(cs, toks, i + 1), LAMBDA r :
             IF ~r.ok THEN r
             ELSE IF toks[i][2] = "*"
-                 THEN IF InModel(acc * r.v) THEN EvTermTail(cs, toks, acc * r.v, r.i)
+                 THEN IF MulInModel(acc, r.v) THEN EvTermTail(cs, toks, acc * r.v, r.i)
                       ELSE Bad("out-of-model", i)
                  ELSE IF r.v = 0 THEN Bad("division-by-zero", i)
-                      ELSE IF acc < 0 \/ r.v < 0 THEN Bad("out-of-model", i)
+                      ELSE IF r.v < 0 THEN Bad("out-of-model", i)    \* TLA+ \div wants a positive divisor
                       ELSE EvTermTail(cs, toks, acc \div r.v, r.i))
 EvTerm(cs, toks, i) ==
     With(EvAtom(cs, toks, i), LAMBDA r : IF ~r.ok THEN r ELSE EvTermTail(cs, toks, r.v, r.i))
@@ -209,6 +211,28 @@ NoteRefs(cs, line, paths) ==
             IF d.k = "none" THEN cs
             ELSE NoteRefs(NoteRef(cs, line, paths[1], d), line, Tail(paths)))
 
+(* paths a declaration looks up *)
+ValuePaths(v) == IF v.e = "ref" THEN << v.path >>
+                 ELSE IF v.e = "calc" THEN [x \in 1..Len(CalcRefs(v.toks)) |-> CalcRefs(v.toks)[x][2]]
+                 ELSE <<>>
+DeclPaths(d) == CASE d.d \in {"alias", "field"} -> TypeRefPaths(d.t)
+                  [] d.d \in {"const", "option"} -> ValuePaths(d.v)
+                  [] OTHER -> <<>>
+
+(* A dotted path whose first component is declared by a scope that does    *)
+(* not contain the rest: the statement of C11 does not say whether such a  *)
+(* scope hides outer definitions; the code looks further out.  Programs in *)
+(* which this happens are tagged and only checked for totality.            *)
+AmbiguousPath(cs, path) ==
+    /\ Len(path) > 1
+    /\ \E k \in (Fr(cs).base + 1)..Len(cs.scopes) :
+            /\ HasMember(cs.scopes[k].members, path[1])
+            /\ GetMember(cs.scopes[k].members, path).k = "none"
+NextDeclAmbiguous(cs) ==
+    /\ cs.status = "run" /\ Fr(cs).pos <= Len(Decls(cs))
+    /\ \E x \in 1..Len(DeclPaths(Decls(cs)[Fr(cs).pos])) :
+            AmbiguousPath(cs, DeclPaths(Decls(cs)[Fr(cs).pos])[x])
+
 (* ---------------- pushing a member ---------------- *)
 (* Scope.push_member: the duplicate-name guard, then the scope's own check *)
 PushMember(cs, name, d) ==
@@ -261,6 +285,7 @@ ApplyDecl(cs, d) ==
                 ELSE IF OptionTable(kind)[d.name] # r.vt THEN Reject(cs, "option-type", L, L)
                 ELSE IF d.name = "c.struct_packing_alignment" /\ ~(r.v >= 0 /\ r.v <= 8)
                      THEN Reject(cs, "option-value", L, L)
+                ELSE IF d.name = "max_bytes" /\ r.v < 0 THEN Reject(cs, "option-value", L, L)
                 ELSE With(IF d.v.e = "ref" THEN NoteRefs(cs, L, << d.v.path >>) ELSE cs, LAMBDA c1 :
                      With(PushMember(c1, d.name, [k |-> "option", v |-> r.v, vt |-> r.vt,
                                                   file |-> FileName(cs), line |-> L]), LAMBDA c2 :
